@@ -267,6 +267,8 @@ func verifyFunc(prog *Program, specs *SpecSet, sp *FuncSpec) (res *FuncResult) {
 	for _, fv := range fn.FreeVars {
 		pre.vars[fv.Name()] = f.free[fv]
 	}
+	// ghost flags local to this function start from their declared entry value
+	f.applyGhostSets(&FuncSpec{GhostSets: sp.GhostInits}, pre, st)
 	var reqs []*Term
 	for _, r := range sp.Requires {
 		g := f.safeEval(pre, r)
